@@ -146,7 +146,7 @@ Definition norm_tag (n : normalisation) : string :=
   | StableSortRuns => "StableSortRuns" | OrderedIteration => "OrderedIteration"
   | KeyLookupOnly => "KeyLookupOnly" | UniqueSlotOnly => "UniqueSlotOnly"
   | CanonicalRotation => "CanonicalRotation" | HeapTotalOrder => "HeapTotalOrder"
-  | NoCombine => "NoCombine" | Allowed _ => "Allowed" | Flagged _ => "Flagged"
+  | NoCombine => "NoCombine" | SequentialPolicy => "SequentialPolicy" | Allowed _ => "Allowed" | Flagged _ => "Flagged"
   | UnstableSort => "UnstableSort" | NotNormalised => "NotNormalised"
   end.
 
